@@ -55,7 +55,7 @@ CLAIM = dict(
          "render-time guards, every entry point, every fault position k and every exception whose class is outside the "
          "documented signal sets of the guards enclosing event k, the render result is exactly that object "
          "(exn_transparent, private_exception_transparent); a clean run raises nothing (clean_run_no_raise). Tie: Gen table "
-         "regenerated each run; fault injection at every event k of generated templates (all statement kinds, ~90 "
+         "regenerated each run; fault injection at every event k of generated templates (all statement kinds, ~290 "
          "expression forms, ~60 filters/tests) x 12 exception classes x render/generate/stream/async entry points x "
          "Environment/Sandboxed/Native, identity (`is`) oracle from the Spec evaluated in Lean on the recorded frame stack, "
          "model prediction from the source table compared with the observed outcome, clean re-renders on the same "
